@@ -3,12 +3,15 @@ bn_lcm, bn_mod_inv, bn_mod_inv_sim.  Every line is judged twice: model column (M
 from props.bngen import hx, magnitude, signed
 
 TRUSTED = [
-    "class A (Model/NtGcd.lean mirrors the C loops at value level; Lemmas/NtGcd.lean proves model = Int.gcd / Bezout / lcm / inverse for all integers; "
-    "the driver executes the model on every line and the exact outputs incl. cofactors must coincide): bn_gcd_basic (= bn_gcd), bn_gcd_binar, bn_gcd_dig, "
-    "bn_gcd_ext_basic (= bn_gcd_ext) with bn_gcd_ext_sign, bn_gcd_ext_dig, bn_gcd_ext_binar (main loop; the final cofactor-reduction loop is modelled and "
-    "executed but its termination is observed, not proved: the theorem is conditional on the model returning), bn_lcm, bn_mod_inv, bn_mod_inv_sim",
-    "class C in the gcd family: bn_gcd_lehme, bn_gcd_ext_lehme (Lehmer's single-digit simulation; outputs checked against gcd and the Bezout identity on every line), "
-    "bn_gcd_ext_mid (not presented)",
+    "class A (Model/NtGcd.lean, Model/NtLehmer.lean mirror the C loops at value level; Lemmas/NtGcd*.lean, NtLehmer.lean prove model = Int.gcd / Bezout / lcm / inverse "
+    "for all integers; the driver executes the models on every line and the exact outputs INCLUDING THE COFACTORS must coincide with the library's): bn_gcd_basic (= bn_gcd), "
+    "bn_gcd_binar, bn_gcd_dig, bn_gcd_ext_basic (= bn_gcd_ext) with bn_gcd_ext_sign, bn_gcd_ext_dig, bn_lcm, bn_mod_inv, bn_mod_inv_sim — theorems at full strength "
+    "(all integers, fuel proved sufficient)",
+    "class A with a partial theorem ('whenever the model returns'): bn_gcd_ext_binar (strip loop and main loop total and exact; termination of the final "
+    "cofactor-reduction loop within the model's fuel is observed on every line, not proved), bn_gcd_lehme / bn_gcd_ext_lehme (unimodular simulated matrix keeps the gcd, tracked "
+    "cofactor + exact division give Bezout; absence of dis_t overflow / negative intermediates / fuel exhaustion is checked by the model on every line — it then prints "
+    "`model-overflow-or-fuel` — not proved)",
+    "class C in the gcd family: bn_gcd_ext_mid (half-gcd for lattice reduction; not presented)",
 ]
 
 CORPUS = [
@@ -18,6 +21,7 @@ CORPUS = [
     "nt_gcd_ext basic 5 5", "nt_gcd_ext basic -5 -5", "nt_gcd_ext basic 5 -5", "nt_gcd_ext basic 1 1", "nt_gcd_ext basic a 5", "nt_gcd_ext basic 5 a",
     "nt_gcd_ext dig 5 5", "nt_gcd_ext dig -5 5", "nt_gcd_ext dig a 5", "nt_gcd_ext dig 5 a", "nt_gcd_ext dig -7 0", "nt_gcd_ext dig 0 7", "nt_gcd dig -7 3",
     "nt_gcd dig -6 3", "nt_gcd lcm 0 5", "nt_gcd lcm 5 0", "nt_gcd lcm 0 0", "nt_gcd lcm -4 6", "nt_gcd lcm 4 -6", "nt_gcd lcm 6 6",
+    "nt_gcd lehme 0 0", "nt_gcd_ext lehme 0 0", "nt_gcd_ext lehme 0 5", "nt_gcd_ext lehme -5 0", "nt_gcd_ext lehme 5 5", "nt_gcd_ext lehme -c 12", "nt_gcd_ext lehme 12 -c",
     "nt_inv 1 2", "nt_inv 3 2", "nt_inv -1 2", "nt_inv 2 4", "nt_inv 0 5", "nt_inv 5 5", "nt_inv 6 5", "nt_inv -6 5", "nt_inv 4 -7",
     "nt_inv_sim 7 3", "nt_inv_sim 7 3 5", "nt_inv_sim 7 3 5 6 1 2 4", "nt_inv_sim 7 3 0 5", "nt_inv_sim 9 2 3 4", "nt_inv_sim 7 a -3 10",
 ]
@@ -91,13 +95,13 @@ def gen(rng, w, cap, digs, n):
         k = rng.below(10)
         m = md if rng.chance(3, 4) else max(1, md // 4)
         if k < 3:
-            v = rng.choice(["basic", "binar", "gcd", "dig"])
+            v = rng.choice(["basic", "binar", "gcd", "dig", "lehme", "lehme"])
             a, b = _pair(rng, w, m)
             if v == "dig":
                 b = abs(b) % B if rng.chance(2, 3) else rng.choice([0, 1, 2, B - 1, B >> 1])
             out.append("nt_gcd %s %s %s" % (v, hx(a), hx(b)))
         elif k < 7:
-            v = rng.choice(["basic", "binar", "binar", "ext", "dig"])
+            v = rng.choice(["basic", "binar", "binar", "ext", "dig", "lehme", "lehme"])
             a, b = _pair(rng, w, m)
             if v == "dig":
                 b = abs(b) % B if rng.chance(2, 3) else rng.choice([0, 1, 2, B - 1, B >> 1])
